@@ -1,6 +1,6 @@
 (* Properties_C13.v — C13: rotation yields self-contained files and loses, repeats or reorders nothing.
    Only statements live here. *)
-Require Import Base Cbor EncoderModel DecoderModel Schema Block BlockProofs Exporter ExporterProofs E2ESpec BlockDecode ViewProofs AecView BlockRead FileProofs EndToEnd.
+Require Import Base Cbor EncoderModel DecoderModel Schema Block BlockProofs Exporter ExporterProofs E2ESpec BlockDecode ViewProofs AecView BlockRead FileProofs EndToEnd Writer ExporterIO ExporterIOProofs.
 Local Open Scope N_scope.
 
 (* an output closed by a rotation receives no further bytes: later calls only put new outputs in front of it *)
@@ -68,6 +68,16 @@ Theorem C13_outputs_self_contained : forall pre ops, typed_pre pre -> adm0 pre o
     Forall reads_back ((last, cur) :: closed).
 Proof. exact history_outputs. Qed.
 Print Assumptions C13_outputs_self_contained.
+
+(* the output writer underneath the exporter: the calls the exporter's encoder makes on it (one write per flushed staging buffer,
+   rotate_output last in a rotation; coq/ExporterIO.v, compared call by call with the real stack's system-call trace) deliver, output by
+   output and in order, exactly the closed outputs of the exporter model and then what destruction closes - nothing of one output ever
+   reaches another *)
+Theorem C13_writer_receives_outputs : forall pre ops ids cur, let x := xrun (x_new pre) ops in
+  map snd (outputs_of cur [] (run_wops (x_new pre) ops ids ++ destroy_wops x) true) = rev (x_closed x) ++ [destroy x].
+Proof. exact fresh_run_outputs. Qed.
+Print Assumptions C13_writer_receives_outputs.
+
 (* the records found by reading all outputs in rotation order are the records buffered, in order, each exactly once *)
 Theorem C13_records_across_outputs : forall pre ops, typed_pre pre -> adm0 pre ops -> typed_x (xrun (x_new pre) ops) ->
   let x := xrun (x_new pre) ops in
